@@ -12,7 +12,8 @@ ANCHORS = ["pyoma2.functions.ssi:build_hank", "pyoma2.algorithms.ssi:SSIdat.run"
 REQUIRED_MONITORS = ["impulse-pairs(cov_mm)", "impulse-pairs(cov_R)", "definition(cov_mm)", "definition(cov_R)", "projection-gram(dat)",
                      "bilinearity(cov_mm)", "bilinearity(cov_R)", "result.H@SSIcov", "result.H@SSIdat"]
 ALL_STATES = [f"l={l}" for l in range(1, 5)] + [f"br={b}" for b in range(1, 6)] + ["ref=subset", "ref=all", "ref unordered"]
-REQUIRED_STATES = [f"l={l}" for l in range(1, 5)] + [f"br={b}" for b in range(1, 6)] + ["ref=subset", "Yref is Y (same object)", "same instance re-run with another ref_ind"]
+REQUIRED_STATES = [f"l={l}" for l in range(1, 5)] + [f"br={b}" for b in range(1, 6)] + ["ref=subset", "Yref is Y (same object)", "same instance re-run with another ref_ind",
+                                                                                                 "integer-typed records", "ordmax above br * (number of references)"]
 RULE = ("(a) exhaustive over a basis: for every channel count 1..4, every reference subset, br 1..5 and the listed record lengths, build_hank "
         "is evaluated on ALL pairs of unit impulses (e_{a,s}, e_{b,t}); each pair must light exactly the cells (i,a;j,b) with lag i+j+1 "
         "(cov_mm) / br+i-j (cov_R) with the uniform weight, nothing else; (b) random data, shapes up to 8 channels / br 12 / 400 samples "
@@ -156,6 +157,11 @@ def run_random(ctx, rng):
     refidx = [int(x) for x in rng.permutation(l)[:r]]
     unordered = refidx != sorted(refidx)
     Y = gen.coloured(rng, l, Nd) * 10 ** rng.uniform(-2, 2)
+    if rng.random() < 0.25:
+        # raw ADC counts: records stored with a narrow integer dtype (the entries are sample correlations of the VALUES, whatever the storage)
+        dt_ = rng.choice([np.int16, np.int32])
+        Y = np.round(gen.coloured(rng, l, Nd) * float(rng.choice([300, 3000, 20000])) / 6).clip(-32000, 32000).astype(dt_)
+        ctx.state("integer-typed records")
     Yref = Y[refidx]
     if r == l and rng.random() < 0.6:
         refidx = list(range(l))
@@ -171,7 +177,7 @@ def run_random(ctx, rng):
         ctx.ev(f"definition({method})")
         if not ctx.check(H.shape == shape, f"{method}:shape", lambda: f"{method}: shape {H.shape} expected {shape} (l={l}, r={r}, br={br})"):
             continue
-        E = fdef(Y, Yref, br)
+        E = fdef(Y.astype(float), Yref.astype(float), br)
         err = np.max(np.abs(H - E)) / np.max(np.abs(E))
         ctx.maxi(f"definition({method}): worst relative difference", err)
         if err > 1e-10:
@@ -225,9 +231,14 @@ def run_classes(ctx, rng):
     br = int(rng.integers(2, 8))
     Nd = int(rng.integers(400, 1500))
     data, *_ = gen.sim_response(rng, l, Nd, 100.0, m=2)
+    if rng.random() < 0.25:
+        data = np.round(data / np.max(np.abs(data)) * float(rng.choice([500, 5000, 30000]))).astype(np.int16)
+        ctx.state("integer-typed records")
     for method, cls, fdef in (("cov_mm", SSIcov, def_cov_mm), ("cov_R", SSIcov, def_cov_R), ("dat", SSIdat, None)):
         ss = SingleSetup(data.copy(), 100.0)
-        ordmax = min(6, br * l, (br + 1) * r)
+        ordmax = min(int(rng.choice([6, 1000])), br * l, (br + 1) * r)  # also the largest order the library accepts for this br
+        if ordmax > br * r:
+            ctx.state("ordmax above br * (number of references)")
         alg = cls(name="a", br=br, ordmax=ordmax, method=method, ref_ind=refidx)
         ss.add_algorithms(alg)
         ss.run_all()
@@ -236,12 +247,13 @@ def run_classes(ctx, rng):
         tag = "result.H@SSIdat" if method == "dat" else "result.H@SSIcov"
         ctx.ev(tag)
         if fdef is not None:
-            E = fdef(Y, Y[refidx], br)
+            E = fdef(Y.astype(float), Y[refidx].astype(float), br)
             ok = np.shape(H) == E.shape and np.max(np.abs(H - E)) <= 1e-10 * np.max(np.abs(E))
             ctx.check(ok, f"cls:{method}:H_not_definition", lambda: f"{cls.__name__}(method={method}, ref_ind={refidx}).result.H is not the definition's matrix for the setup data")
         else:
             p, q = br, br + 1
             N = Nd - p - q
+            Y = Y.astype(float)
             Yf = np.vstack([Y[:, q + 1 + i: N + q + i] for i in range(p + 1)]) / np.sqrt(N)
             Yp = np.vstack([Y[refidx][:, q - j: N + q - 1 - j] for j in range(q)]) / np.sqrt(N)
             P = Yf @ Yp.T @ np.linalg.solve(Yp @ Yp.T, Yp)
@@ -259,7 +271,7 @@ def run_classes(ctx, rng):
             alg.run_params.ref_ind = ref_now
             alg.run_params.ordmax = min(6, br * l, (br + 1) * (l if ref_now is None else len(ref_now)) - 1)
             ss.run_by_name("a")
-            E = fdef(Y, Y if ref_now is None else Y[ref_now], br)
+            E = fdef(Y.astype(float), Y.astype(float) if ref_now is None else Y[ref_now].astype(float), br)
             H = alg.result.H
             ctx.ev("result.H@SSIcov")
             ctx.check(np.shape(H) == E.shape and np.max(np.abs(H - E)) <= 1e-10 * np.max(np.abs(E)), f"cls:{method}:H_stale_or_wrong_after_ref_ind_change",
